@@ -876,8 +876,11 @@ func (r *runningStep) executeSubWorkflows(input executeInput) ([]any, map[int]st
 			}
 
 			r.logger.Debugf("Executing item %d...", i)
-			// Ignore the output ID here because it can only be "success"
-			_, outputData, err := r.workflow.Execute(r.ctx, input)
+			outputID, outputData, err := r.workflow.Execute(r.ctx, input)
+			if err == nil && outputID != "success" {
+				// Only the success output matches the declared item schema; anything else is a failed item.
+				err = fmt.Errorf("subworkflow finished with output '%s' instead of 'success'", outputID)
+			}
 			r.lock.Lock()
 			if err != nil {
 				itemErrors[i] = err.Error()
